@@ -557,7 +557,7 @@ def next_psuedo_matches(state: TokenizerState) -> TokenInfo | None:
         elif token in ")]}":
             if state.in_braces() and state.at_parenlev():
                 state.pop_mode((state.lnum, end))
-            state.parenlev -= 1
+            state.parenlev = max(state.parenlev - 1, 0)  # a closer without opener opens nothing: the line still ends
         elif token == ":" and state.in_braces() and state.at_parenlev():
             quote = next((p.quote for p in reversed(state.end_progs) if p.quote), "")  # a spec may span lines in '''/"""
             state.add_prog(start + 1, end, mode=ModeInColon(state.parenlev), pattern=spec_patterns(quote), quote=quote)
